@@ -41,12 +41,13 @@ func NewCompositeSequenceDFA(re *syntax.Regexp) *CompositeSequenceDFA {
 		return nil // Too many parts, or not a composite pattern
 	}
 
-	// Check all parts have minMatch >= 1 (no * quantifiers for now)
+	// Check all parts have minMatch == 1: the automaton treats every part as class+ (one
+	// char meets the minimum), so x{2,} would be run as x+; x* is not supported either
 	// and maxMatch == 0 (unbounded). Bounded maxMatch (e.g., bare \w with
 	// maxMatch=1, or \w{2,8}) requires counting characters per part, which
 	// the DFA doesn't support — fall back to CompositeSearcher backtracking.
 	for _, p := range parts {
-		if p.minMatch == 0 {
+		if p.minMatch != 1 {
 			return nil // Star quantifiers need more complex handling
 		}
 		if p.maxMatch > 0 {
@@ -415,7 +416,7 @@ func IsCompositeSequenceDFAPattern(re *syntax.Regexp) bool {
 
 	// Check all parts have minMatch >= 1 and maxMatch == 0 (unbounded)
 	for _, p := range parts {
-		if p.minMatch == 0 {
+		if p.minMatch != 1 {
 			return false
 		}
 		if p.maxMatch > 0 {
